@@ -2,8 +2,8 @@ SPECIFICATION Spec
 CONSTANTS
   TyNames = {"a", "b"}
   TmNames = {"A", "a", "b"}
-  NTy = 5
-  NTm = 8
+  NTy = 4
+  NTm = 4
   NList = 3
 INVARIANT ArgRoundTrip
 CHECK_DEADLOCK FALSE
